@@ -324,9 +324,10 @@ def r6_address_arithmetic(ctx, F):
                 tys = [fn.d["locals"][o["l"]] for o in t["ops"] if "l" in o and not o.get("p")]
                 if any(ty == "u32" for ty in tys):
                     sites.append((fn, bi, t))
-    ctx.floor("address-additions", len(sites), 4)
+    ctx.floor("address-additions", len(sites), 2)
     for fn, bi, t in sites:
-        key = "%s|+%s" % (short(fn.id), fn.const_of(t["ops"][1]))
+        k = fn.const_of(t["ops"][1])
+        key = "%s|+%s" % (short(fn.id), k)
         ctx.inst(key=key, nontrivial=True)
         # guarded if dominated by a comparison of the same operand against an upper bound
         a = resolve_copy(fn, t["ops"][0])
@@ -336,6 +337,26 @@ def r6_address_arithmetic(ctx, F):
                 x = resolve_copy(fn, c["a"])
                 if x.get("l") == a.get("l"):
                     guarded = True
+        # or guarded by every caller: the operand is a parameter and each call site is dominated by get_valid_address(addr + k)
+        if not guarded and a.get("l") is not None and 1 <= a["l"] <= fn.d["argc"]:
+            argno = a["l"] - 1
+            callers = [(F.fns[c], bb, tt) for c in F.callers(fn.id) for bb, cc, tt in F.fns[c].calls() if cc == fn.id]
+            okc = bool(callers)
+            for cf, cb, ct in callers:
+                passed = ct["args"][argno]
+                src = set(cf.backward_slice(passed["l"], through_calls=False)["locals"]) if "l" in passed else set()
+                found = False
+                for vb, vc, vt in cf.calls_to(r"get_valid_address$"):
+                    if not cf.dominates(vb, cb) or "l" not in vt["args"][0]:
+                        continue
+                    sl = cf.backward_slice(vt["args"][0]["l"])
+                    has_k = any(x.get("c") == k for x in sl["consts"])
+                    # the validated value is built from the very value passed as address (same get_valid_address result)
+                    shares = bool(set(sl["locals"]) & src) or any(set(cf.backward_slice(l_, through_calls=False)["locals"]) & src for l_ in list(sl["locals"])[:40])
+                    if has_k and shares:
+                        found = True
+                okc = okc and found
+            guarded = okc
         ctx.oblig(guarded)
         if not guarded:
             ctx.violation("addr-overflow|%s" % key, fn.loc(t["ln"]),
